@@ -17,9 +17,11 @@ from .. import core
 from . import c18_ops
 
 ID = "C18"
-RULE = ("about 60 operations on generated inputs (create from JSON and YAML, the same description object created "
-        "twice, parse to yaml/json with/without hierarchy, image boot on both SoCs, mpi generate/merge, cache from "
-        "payloads/envelope, sign x3 algorithms, encrypt x2, three failing operations); reference = each alone in a "
+RULE = ("about 90 operations on generated inputs (create from JSON and YAML, the same description object created "
+        "twice, parse to yaml/json with/without hierarchy, image boot on both SoCs with and without Kconfig files, mpi "
+        "generate/merge, cache from payloads/envelope, sign x3 algorithms, encrypt x2, near-collision inputs, three failing "
+        "operations, and 8 REBUILD pairs - create / cache from payloads / cache from envelope / boot / parse / sign / mpi "
+        "merge / encrypt on a path that is rewritten with other content of the same size before the operation); reference = each alone in a "
         "fresh interpreter; histories = random orders with repetitions in one interpreter under PYTHONHASHSEED in "
         "{0,1,2,random...}, separate working directories, guard on/off. distinct = (operation, history, position) "
         "occurrences; non-trivial = occurrences that are preceded by at least one other operation in the same "
@@ -83,6 +85,11 @@ def run_shard(rec, shard, nshards):
             # every create/parse pair of one description adjacent, twice: "create twice gives identical bytes"
             k = r.randrange(0, 8)
             order += [f"create-json-{k}", f"create-json-{k}", f"create-yaml-{k}", f"create-twice-{k}", f"create-json-{k}"]
+        if h % 3 == 1:
+            # rebuild pairs adjacent: the same path read again after its content changed (same size)
+            kinds = sorted({i[:-2] for i in ids if i.startswith("rebuild-")})
+            for kd in r.sample(kinds, min(3, len(kinds))):
+                order += [f"{kd}-A", f"{kd}-B", f"{kd}-A"]
         hs = HASHSEEDS[h % len(HASHSEEDS)]
         guard = h % 2 == 0
         res, err = run_history(root, rec.seed, order, hs, guard, wd, f"h{h}")
